@@ -117,6 +117,9 @@ func sweepSeeds(repo string) (seeds []sweepSeed, notes []string) {
 	return
 }
 
+// seeds whose plain decoding hung while the inputs were being derived (index -> Case)
+var sweepPairHangs sync.Map
+
 // sweepPair is an input for one layer type, found inside a seed at the offset where that layer starts.
 type sweepPair struct {
 	lt    gopacket.LayerType
@@ -161,47 +164,54 @@ func sweepPairs(dom *sweepDom, seeds []sweepSeed, perType int) map[gopacket.Laye
 		src   string
 	}
 	res := make([][]found, len(jobs))
-	var wg sync.WaitGroup
-	var next int64
-	for w := 0; w < runtime.GOMAXPROCS(0); w++ {
-		wg.Add(1)
-		go func() {
-			defer wg.Done()
-			for {
-				i := int(atomic.AddInt64(&next, 1) - 1)
-				if i >= len(jobs) {
+	fin := make([]int32, len(jobs))
+	var hungFirst sync.Map
+	var nHung int64
+	sweepPool(len(jobs),
+		func(i int, phase *atomic.Value) {
+			j := jobs[i]
+			phase.Store("C19:seed-decode:" + j.s.name)
+			var fs []found
+			func() {
+				defer func() { recover() }()
+				pk := gopacket.NewPacket(j.s.data, j.first, gopacket.DecodeOptions{DecodeStreamsAsDatagrams: true})
+				ls := pk.Layers()
+				good := 0
+				for _, l := range ls {
+					if _, bad := l.(*gopacket.DecodeFailure); !bad {
+						good++
+					}
+				}
+				if !(j.s.first >= 0 || (pk.ErrorLayer() == nil && good >= 2) || good >= 3) {
 					return
 				}
-				j := jobs[i]
-				func() {
-					defer func() { recover() }()
-					pk := gopacket.NewPacket(j.s.data, j.first, gopacket.DecodeOptions{DecodeStreamsAsDatagrams: true})
-					ls := pk.Layers()
-					good := 0
-					for _, l := range ls {
-						if _, bad := l.(*gopacket.DecodeFailure); !bad {
-							good++
-						}
+				score := good
+				if pk.ErrorLayer() == nil {
+					score += 10
+				}
+				for _, l := range ls {
+					if _, bad := l.(*gopacket.DecodeFailure); bad {
+						continue
 					}
-					if !(j.s.first >= 0 || (pk.ErrorLayer() == nil && good >= 2) || good >= 3) {
-						return
-					}
-					score := good
-					if pk.ErrorLayer() == nil {
-						score += 10
-					}
-					for _, l := range ls {
-						if _, bad := l.(*gopacket.DecodeFailure); bad {
-							continue
-						}
-						d := append(append([]byte(nil), l.LayerContents()...), l.LayerPayload()...)
-						res[i] = append(res[i], found{l.LayerType(), d, score, j.s.name})
-					}
-				}()
+					d := append(append([]byte(nil), l.LayerContents()...), l.LayerPayload()...)
+					fs = append(fs, found{l.LayerType(), d, score, j.s.name})
+				}
+			}()
+			if atomic.CompareAndSwapInt32(&fin[i], 0, 1) {
+				res[i] = fs
 			}
-		}()
-	}
-	wg.Wait()
+		},
+		func(i int) bool {
+			_, bad := hungFirst.Load(jobs[i].first)
+			return bad || atomic.LoadInt64(&nHung) > 6
+		},
+		func(i int, phase string, goid int64) {
+			// decoding a seed hung: the seed becomes an explicit case so that the main run reports it
+			atomic.CompareAndSwapInt32(&fin[i], 0, 1)
+			atomic.AddInt64(&nHung, 1)
+			hungFirst.Store(jobs[i].first, true)
+			sweepPairHangs.Store(i, sweepCase(jobs[i].first, "seedhang", 0x0001, jobs[i].s.data))
+		})
 	for _, fs := range res {
 		for _, f := range fs {
 			add(f.lt, f.d, f.score, f.src)
@@ -336,7 +346,7 @@ type sweepBudget struct {
 
 func sweepBudgetFor(tier string) sweepBudget {
 	if tier == "thorough" {
-		return sweepBudget{perType: 60, truncAll: 1 << 20, forceFrac: 1, genLen: 128, genRand: 12, wholeFirst: 1, combos: 4, lenFrac: 1, genStep: 1}
+		return sweepBudget{perType: 40, truncAll: 1 << 20, forceFrac: 1, genLen: 128, genRand: 8, wholeFirst: 1, combos: 3, lenFrac: 1, genStep: 1}
 	}
 	return sweepBudget{perType: 10, truncAll: 160, forceFrac: 0.2, genLen: 128, genRand: 2, wholeFirst: 0.15, combos: 1, lenFrac: 0.6, genStep: 2}
 }
@@ -348,7 +358,11 @@ func (sweep) Gen(rng *rand.Rand, tier string) []Case {
 			fmt.Fprintf(os.Stderr, "sweep: %-10s %6.1fs\n", what, time.Since(t0).Seconds())
 		}
 	}
-	debug.SetGCPercent(400)
+	if tier == "thorough" {
+		debug.SetGCPercent(100)
+	} else {
+		debug.SetGCPercent(400)
+	}
 	if pf := os.Getenv("SWEEP_PROF"); pf != "" {
 		if f, err := os.Create(pf); err == nil {
 			pprof.StartCPUProfile(f)
@@ -365,6 +379,15 @@ func (sweep) Gen(rng *rand.Rand, tier string) []Case {
 	lap("pairs")
 
 	cases := []Case{{ID: "Sweep-tie", Prop: "Sweep", Ops: []string{"tie:"}}}
+	{
+		var hs []Case
+		sweepPairHangs.Range(func(_, v interface{}) bool {
+			hs = append(hs, v.(Case))
+			return true
+		})
+		sort.Slice(hs, func(i, j int) bool { return hs[i].Ops[0] < hs[j].Ops[0] })
+		cases = append(cases, hs...)
+	}
 	// one shard per registered layer type, each with its own rng derived from the seed
 	targets := append(append([]gopacket.LayerType(nil), dom.registered...), dom.pseudo...)
 	shards := make([][]Case, len(targets))
@@ -454,19 +477,26 @@ func (sweep) Gen(rng *rand.Rand, tier string) []Case {
 			}
 			for _, n := range []int{255, 256, 1500, 4096, 65535, 65536} {
 				if tier != "thorough" && n > 4096 {
+					// the 16-bit boundary, cheaply: offsets kept in a uint16 wrap here
+					if n == 65535 {
+						add("gen", sweepMask(r, bud.combos), make([]byte, n))
+					} else {
+						add("gen", sweepMask(r, bud.combos), bytes.Repeat([]byte{0xff}, n))
+					}
 					continue
 				}
 				b := make([]byte, n)
 				r.Read(b)
 				add("gen", sweepMask(r, bud.combos), b)
 				add("gen", sweepMask(r, bud.combos), make([]byte, n))
+				add("gen", sweepMask(r, bud.combos), bytes.Repeat([]byte{0xff}, n))
 			}
 			shards[si] = out
 		}(si, lt)
 	}
 	wg.Wait()
 	seen := map[string]bool{}
-	for _, sh := range shards {
+	for si, sh := range shards {
 		for _, c := range sh {
 			if seen[c.Ops[0]] {
 				continue
@@ -474,15 +504,34 @@ func (sweep) Gen(rng *rand.Rand, tier string) []Case {
 			seen[c.Ops[0]] = true
 			cases = append(cases, c)
 		}
+		shards[si] = nil
 	}
+	seen = nil
 	for i := range cases {
 		if cases[i].ID == "" {
 			cases[i].ID = fmt.Sprintf("Sweep-%d-%d", seed&0xffff, i)
 		}
 	}
 	lap("generate")
+	if os.Getenv("SWEEP_TIMING") != "" {
+		tot := 0
+		for _, c := range cases {
+			tot += len(c.Ops[0])
+		}
+		fmt.Fprintf(os.Stderr, "sweep: %d cases, %d MB of op text, %d seeds, %d layer types + %d pseudo\n", len(cases), tot>>20, len(seeds), len(dom.registered), len(dom.pseudo))
+	}
+	if os.Getenv("SWEEP_DRY") != "" {
+		os.Exit(0)
+	}
 	results := sweepRunAll(cases, tier)
 	lap("run")
+	if hf := os.Getenv("SWEEP_HEAP"); hf != "" {
+		if f, err := os.Create(hf); err == nil {
+			runtime.GC()
+			pprof.WriteHeapProfile(f)
+			f.Close()
+		}
+	}
 	mins := sweepMinimise(cases, results)
 	lap("minimise")
 	// minimised witnesses first: ./check reports the first failing case per clause
@@ -515,13 +564,16 @@ type sweepSlot struct {
 	phase atomic.Value
 	goid  int64
 	tid   int
-	cpu0  time.Duration // CPU time of the worker's OS thread when the case started
+	cpu0  time.Duration // CPU time of the worker's OS thread when the current phase was first seen running long
+	last  string        // phase at the previous look of the watchdog
+	since int64         // when that phase was first seen
 }
 
-// A case "hangs" when its worker thread has burnt more than sweepCPULimit of CPU on it (robust against a
-// loaded machine), or when it has made no progress for sweepWallLimit of wall-clock time (blocked).
+// A call "hangs" when one phase of a case (one call into gopacket) has kept the worker thread busy for more than
+// sweepCPULimit of CPU time (robust against a loaded machine), or has made no progress for sweepWallLimit of
+// wall-clock time (blocked).  The biggest inputs (64 KiB decoding into 32 000 layers) need about 1.5 s per call.
 const (
-	sweepCPULimit  = 3 * time.Second
+	sweepCPULimit  = 5 * time.Second
 	sweepWallLimit = 90 * time.Second
 )
 
@@ -554,8 +606,10 @@ func sweepOverLimit(tid int, cpu0 time.Duration, start int64, now int64) bool {
 	return sweepThreadCPU(tid)-cpu0 > sweepCPULimit
 }
 
-func sweepRunAll(cases []Case, tier string) []Result {
-	results := make([]Result, len(cases))
+// sweepPool runs job(i) for i in [0,n) on GOMAXPROCS worker goroutines, each locked to an OS thread, under the
+// hang limits.  A job that exceeds them is abandoned (its goroutine cannot be stopped and keeps spinning): hung(i, phase,
+// goroutine id) is called and a replacement worker is started.  skip(i) is asked before each job.
+func sweepPool(n int, job func(i int, phase *atomic.Value), skip func(i int) bool, hung func(i int, phase string, goid int64)) {
 	var next int64
 	nw := runtime.GOMAXPROCS(0)
 	var mu sync.Mutex
@@ -569,22 +623,24 @@ func sweepRunAll(cases []Case, tier string) []Result {
 		tid := syscall.Gettid()
 		for {
 			i := int(atomic.AddInt64(&next, 1) - 1)
-			if i >= len(cases) {
+			if i >= n {
 				return
+			}
+			if skip != nil && skip(i) {
+				continue
 			}
 			sl := &sweepSlot{idx: i, start: time.Now().UnixNano(), goid: goid, tid: tid}
 			sl.phase.Store("start")
 			mu.Lock()
 			live[sl] = true
 			mu.Unlock()
-			res := sweepRunCase(cases[i], &sl.phase)
+			job(i, &sl.phase)
 			mu.Lock()
 			delete(live, sl)
 			mu.Unlock()
 			if !atomic.CompareAndSwapInt32(&sl.state, 0, 1) {
 				return // abandoned by the watchdog; a replacement worker is already running
 			}
-			results[i] = res
 		}
 	}
 	for w := 0; w < nw; w++ {
@@ -602,30 +658,34 @@ func sweepRunAll(cases []Case, tier string) []Result {
 			case <-t.C:
 			}
 			now := time.Now().UnixNano()
-			var hung []*sweepSlot
+			var suspects, over []*sweepSlot
 			mu.Lock()
-			var suspects []*sweepSlot
 			for sl := range live {
-				if now-sl.start > int64(sweepCPULimit) {
-					suspects = append(suspects, sl)
-				}
+				suspects = append(suspects, sl)
 			}
 			mu.Unlock()
 			for _, sl := range suspects {
+				ph, _ := sl.phase.Load().(string)
+				if ph != sl.last || sl.since == 0 {
+					sl.last, sl.since, sl.cpu0 = ph, now, 0
+					continue
+				}
+				if now-sl.since < int64(sweepCPULimit) {
+					continue
+				}
 				if sl.cpu0 == 0 {
-					// first time this case is seen running long: start its CPU account here
+					// first time this phase is seen running long: start its CPU account here
 					sl.cpu0 = sweepThreadCPU(sl.tid) + 1
 					continue
 				}
-				if sweepOverLimit(sl.tid, sl.cpu0, sl.start, now) {
-					hung = append(hung, sl)
+				if sweepOverLimit(sl.tid, sl.cpu0, sl.since, now) {
+					over = append(over, sl)
 				}
 			}
-			for _, sl := range hung {
+			for _, sl := range over {
 				ph, _ := sl.phase.Load().(string)
-				res := sweepHangResult(cases[sl.idx], ph, sl.goid)
 				if atomic.CompareAndSwapInt32(&sl.state, 0, 2) {
-					results[sl.idx] = res
+					hung(sl.idx, ph, sl.goid)
 					mu.Lock()
 					delete(live, sl)
 					mu.Unlock()
@@ -637,6 +697,49 @@ func sweepRunAll(cases []Case, tier string) []Result {
 	}()
 	wg.Wait()
 	close(stop)
+}
+
+func sweepRunAll(cases []Case, tier string) []Result {
+	results := make([]Result, len(cases))
+	done := make([]int32, len(cases))
+	var hungTypes sync.Map
+	var nHung, fuse int64
+	sweepPool(len(cases),
+		func(i int, phase *atomic.Value) {
+			res := sweepRunCase(cases[i], phase)
+			if atomic.CompareAndSwapInt32(&done[i], 0, 1) {
+				results[i] = res
+			}
+		},
+		func(i int) bool {
+			// a hung goroutine cannot be stopped and keeps its thread busy: once an input of a layer type has hung,
+			// the remaining inputs of that first layer type are skipped (and everything after 12 hangs, or once an
+			// abandoned goroutine has allocated more than 6 GiB: a decoder that loops while appending)
+			if h := atomic.LoadInt64(&nHung); h > 0 && i%512 == 0 && atomic.LoadInt64(&fuse) == 0 {
+				var ms runtime.MemStats
+				runtime.ReadMemStats(&ms)
+				if ms.HeapAlloc > 6<<30 {
+					atomic.StoreInt64(&fuse, 1)
+				}
+			}
+			if lt, _, _, ok := sweepParse(cases[i]); ok {
+				if _, bad := hungTypes.Load(lt); bad || atomic.LoadInt64(&nHung) > 12 || atomic.LoadInt64(&fuse) != 0 {
+					results[i] = Result{Obs: []string{"skipped-after-hang=1"}, Tags: []string{"skipped-after-hang"}}
+					return true
+				}
+			}
+			return false
+		},
+		func(i int, phase string, goid int64) {
+			res := sweepHangResult(cases[i], phase, goid)
+			if atomic.CompareAndSwapInt32(&done[i], 0, 1) {
+				results[i] = res
+			}
+			atomic.AddInt64(&nHung, 1)
+			if lt, _, _, ok := sweepParse(cases[i]); ok {
+				hungTypes.Store(lt, true)
+			}
+		})
 	sweepCacheMu.Lock()
 	for i, c := range cases {
 		sweepCache[c.Ops[0]] = results[i]
@@ -713,7 +816,8 @@ func sweepMinimise(cases []Case, results []Result) []Case {
 			defer func() { <-sem }()
 			c := cases[g.best]
 			lt, _, data, ok := sweepParse(c)
-			if !ok {
+			if !ok || strings.Contains(g.key, ":hang\t") {
+				// a hanging case is not re-run: every run would leave a spinning thread behind
 				mins[gi] = Case{ID: fmt.Sprintf("SweepMin-%d", gi), Prop: "Sweep", Ops: c.Ops}
 				return
 			}
@@ -797,8 +901,9 @@ func (sweep) runGuarded(c Case) Result {
 		done <- sweepRunCase(c, &phase)
 	}()
 	id := <-ids
-	start := time.Now().UnixNano()
+	since := time.Now().UnixNano()
 	cpu0 := sweepThreadCPU(int(id[1]))
+	last := "start"
 	t := time.NewTicker(50 * time.Millisecond)
 	defer t.Stop()
 	for {
@@ -806,9 +911,13 @@ func (sweep) runGuarded(c Case) Result {
 		case r := <-done:
 			return r
 		case <-t.C:
-			if sweepOverLimit(int(id[1]), cpu0, start, time.Now().UnixNano()) {
-				ph, _ := phase.Load().(string)
-				return sweepHangResult(c, ph, id[0])
+			now := time.Now().UnixNano()
+			if ph, _ := phase.Load().(string); ph != last {
+				last, since, cpu0 = ph, now, sweepThreadCPU(int(id[1]))
+				continue
+			}
+			if sweepOverLimit(int(id[1]), cpu0, since, now) {
+				return sweepHangResult(c, last, id[0])
 			}
 		}
 	}
